@@ -98,7 +98,7 @@ func H_C15_keys(t *verifrt.T) {
 	names := vkANames
 	mapPath := true
 	streamRoute := false
-	nstruct := 3
+	nstruct := t.ParamOr("NSTRUCT", 3)
 	if t.ParamOr("UNITS", 0) > 0 {
 		nstruct = 2 // the escape-unit family runs on the first two structs (the nine-member one: free-byte family)
 	}
